@@ -144,8 +144,8 @@ def factory(ns, M, R, sig_slots=1, verify_after=False):
                 obs.append(oblige(eng, 'checker rejects no document satisfying the schema', sch, mk))
             else:
                 obs.append(oblige(eng, 'checker rejects with TypeError/ValueError', True, mk))
-            if any(e['kind'] in ('arg_mutation', 'global_store', 'global_mutation') for e in eng.events):
-                obs.append(oblige(eng, 'checker does not modify its argument or module state', True, mk))
+            if any(e['kind'] == 'arg_mutation' for e in eng.events):
+                obs.append(oblige(eng, 'checker does not modify its argument', True, mk))
             w = mk(m)
             w['predicted'] = predicted(out)
             reach = ['accepts'] if is_ret(out) else ['rejects:' + out[1]]
